@@ -1,7 +1,7 @@
 use super::error;
 use super::model::{self, AsValue};
 use std::ops::Range;
-use xml_dom::{self as dom, AsExpandedName, Attr, Document, Element, Node};
+use xml_dom::{self as dom, AsExpandedName, Attr, Document, Node};
 
 pub type XPathFunc =
     dyn Fn(Vec<model::Value>, dom::XmlNode, &mut model::Context) -> error::Result<model::Value>;
@@ -541,18 +541,26 @@ fn lang(
     node: dom::XmlNode,
     _: &mut model::Context,
 ) -> error::Result<model::Value> {
-    let name = String::try_from(args.first().unwrap())?;
+    // XPath 1.0 4.3: the language of the context node is the value of the xml:lang attribute of the
+    // nearest ancestor-or-self that has one; it matches when it is equal to the argument ignoring
+    // case, or starts with the argument followed by '-'.
+    let name = String::try_from(args.first().unwrap())?.to_ascii_lowercase();
 
     let mut n = Some(node);
-    while let Some(dom::XmlNode::Element(element)) = n {
-        // FIXME: namespace
-        if let Some(attr) = element.get_attribute_node("lang") {
-            if attr.value()? == name {
-                return Ok(model::Value::Boolean(true));
+    while let Some(current) = n {
+        if let Some(attrs) = current.attributes() {
+            for attr in attrs.iter() {
+                if let Some((local_name, Some(prefix), _)) = attr.as_expanded_name()? {
+                    if local_name == "lang" && prefix == "xml" {
+                        let value = attr.value()?.to_ascii_lowercase();
+                        let matched = value == name || value.starts_with(&format!("{}-", name));
+                        return Ok(model::Value::Boolean(matched));
+                    }
+                }
             }
         }
 
-        n = element.parent_node();
+        n = current.parent_node();
     }
 
     Ok(model::Value::Boolean(false))
